@@ -198,16 +198,24 @@ func c14Cycles(r *mc.Report) {
 		inits int
 		cycle []Op
 		fault map[string]string
+		// replace: the second output (D4) of a scoped two-return constructor is removed from the collection
+		// and registered again as a SINGLETON before Build
+		replace bool
 	}
 	variants := []variant{
-		{"flat", 0, []Op{{Kind: "scope", Bind: "a", Ctx: "shared"}, {Kind: "get", Scope: "a", T: "P4"}, {Kind: "get", Scope: "a", T: "D2"}, {Kind: "close", Scope: "a"}}, nil},
-		{"nested", 1, []Op{{Kind: "scope", Bind: "a", Ctx: "shared"}, {Kind: "scope", Scope: "a", Bind: "b", Ctx: "nil"}, {Kind: "get", Scope: "b", T: "P4"}, {Kind: "scope", Scope: "b", Bind: "c", Ctx: "shared"}, {Kind: "get", Scope: "c", T: "D1"}, {Kind: "close", Scope: "a"}}, nil},
-		{"nested-child-first", 0, []Op{{Kind: "scope", Bind: "a", Ctx: "shared"}, {Kind: "scope", Scope: "a", Bind: "b", Ctx: "shared"}, {Kind: "get", Scope: "b", T: "D1"}, {Kind: "close", Scope: "b"}, {Kind: "close", Scope: "a"}}, nil},
-		{"failing-creation", 2, []Op{{Kind: "scope", Bind: "a", Ctx: "shared"}, {Kind: "scope", Bind: "b", Ctx: "shared"}, {Kind: "close", Scope: "a"}, {Kind: "close", Scope: "b"}}, map[string]string{"11:*": "err"}},
-		{"failing-nested-creation", 2, []Op{{Kind: "scope", Bind: "a", Ctx: "shared"}, {Kind: "scope", Scope: "a", Bind: "b", Ctx: "nil"}, {Kind: "close", Scope: "a"}}, map[string]string{"11:3": "err", "11:5": "err", "11:7": "err", "11:9": "err", "11:11": "err", "11:13": "err", "11:15": "err"}},
+		{"flat", 0, []Op{{Kind: "scope", Bind: "a", Ctx: "shared"}, {Kind: "get", Scope: "a", T: "P4"}, {Kind: "get", Scope: "a", T: "D2"}, {Kind: "close", Scope: "a"}}, nil, false},
+		{"nested", 1, []Op{{Kind: "scope", Bind: "a", Ctx: "shared"}, {Kind: "scope", Scope: "a", Bind: "b", Ctx: "nil"}, {Kind: "get", Scope: "b", T: "P4"}, {Kind: "scope", Scope: "b", Bind: "c", Ctx: "shared"}, {Kind: "get", Scope: "c", T: "D1"}, {Kind: "close", Scope: "a"}}, nil, false},
+		{"nested-child-first", 0, []Op{{Kind: "scope", Bind: "a", Ctx: "shared"}, {Kind: "scope", Scope: "a", Bind: "b", Ctx: "shared"}, {Kind: "get", Scope: "b", T: "D1"}, {Kind: "close", Scope: "b"}, {Kind: "close", Scope: "a"}}, nil, false},
+		{"failing-creation", 2, []Op{{Kind: "scope", Bind: "a", Ctx: "shared"}, {Kind: "scope", Bind: "b", Ctx: "shared"}, {Kind: "close", Scope: "a"}, {Kind: "close", Scope: "b"}}, map[string]string{"11:*": "err"}, false},
+		{"failing-nested-creation", 2, []Op{{Kind: "scope", Bind: "a", Ctx: "shared"}, {Kind: "scope", Scope: "a", Bind: "b", Ctx: "nil"}, {Kind: "close", Scope: "a"}}, map[string]string{"11:3": "err", "11:5": "err", "11:7": "err", "11:9": "err", "11:11": "err", "11:13": "err", "11:15": "err"}, false},
 	}
+	variants = append(variants, variant{name: "replaced-sibling-output", cycle: []Op{{Kind: "scope", Bind: "a", Ctx: "shared"}, {Kind: "get", Scope: "a", T: "D3"}, {Kind: "get", Scope: "a", T: "D4"}, {Kind: "close", Scope: "a"}}, replace: true})
 	for _, v := range variants {
 		spec := c14Spec(v.inits)
+		if v.replace {
+			spec.Regs = append(spec.Regs, kit.Reg{ID: 5, Life: "scoped", Outs: []kit.Out{{T: "D3"}, {T: "D4"}}, Deps: []kit.Dep{{T: "D1"}}},
+				kit.Reg{ID: 6, Life: "singleton", Outs: []kit.Out{{T: "D4"}}})
+		}
 		var counts []int
 		var threads []int
 		var callerCounts []int
@@ -224,7 +232,25 @@ func c14Cycles(r *mc.Report) {
 				}
 				e.W.Faults[k] = f
 			}
-			e.Build()
+			if v.replace {
+				e.Coll = godiNewCollection()
+				for i := range spec.Regs {
+					if spec.Regs[i].ID == 6 {
+						e.Coll.Remove(kit.TypeOf("D4"))
+					}
+					if err := e.W.Add(e.Coll, &spec.Regs[i]); err != nil {
+						e.BuildErr = err
+						return
+					}
+				}
+				e.curScope[0] = "#build"
+				e.Prov, e.BuildErr = e.Coll.Build()
+				for _, cl := range e.W.Calls {
+					e.CallScope[cl] = "#build"
+				}
+			} else {
+				e.Build()
+			}
 			if e.Prov == nil {
 				return
 			}
